@@ -633,7 +633,9 @@ def hooked_pairs_check(ctx):
                      ("push-artifact/push-artifact", manifest_put(repo, dg("sha256", arts[1]), arts[1], ctype=MT_OCI_M), manifest_put(repo, dg("sha256", arts[2]), arts[2], ctype=MT_OCI_M)),
                      ("push-artifact/delete-artifact", manifest_put(repo, dg("sha256", arts[1]), arts[1], ctype=MT_OCI_M), manifest_delete(repo, dg("sha256", arts[0]))),
                      ("move-tag/move-tag", manifest_put(repo, "moved", base, ctype=MT_OCI_M), manifest_put(repo, "moved", other, ctype=MT_OCI_M)),
-                     ("delete-tag/push-tag", manifest_delete(repo, "other"), manifest_put(repo, "moved", other, ctype=MT_OCI_M))]
+                     ("delete-tag/push-tag", manifest_delete(repo, "other"), manifest_put(repo, "moved", other, ctype=MT_OCI_M)),
+                     ("push-stored-bytes-under-a-new-tag/delete-by-digest", manifest_put(repo, "moved", base, ctype=MT_OCI_M), manifest_delete(repo, dg("sha256", base))),
+                     ("delete-by-digest/push-stored-bytes-under-a-new-tag", manifest_delete(repo, dg("sha256", other)), manifest_put(repo, "moved", other, ctype=MT_OCI_M))]
             for name, r1, r2 in pairs:
                 def mk(steps):
                     steps = [dict(x) for x in steps]
@@ -667,6 +669,57 @@ def hooked_pairs_check(ctx):
             ctx.violation("%s on the %s store, the first request standing before its store action %d (%s) while the second is sent: when both are done %s"
                           % (name, store, at, acts[at - 1], "; ".join("%s answers %s (first-then-second %s, second-then-first %s)" % d for d in diff)[:700]),
                           dict(case=replayable(byid[cid]), scenario=name, before_action=acts[at - 1], actions=acts), "C11:pair-%s" % name.replace("/", "-vs-"))
+    return n, nbad
+
+
+def evicted_update_check(ctx):
+    """an artifact push whose referrers update fails - its upload session for the new response is evicted by another client's
+    upload (one session allowed per repository) while the push stands before one of its store actions - next to a second client that
+    tags the same artifact: whatever the first push is answered, what the second client was acknowledged (201) is there at the end"""
+    rng = ctx.rng
+    binp = api_binary(ctx)
+    cases, meta = [], {}
+    for store in ("mem", "dir"):
+        for rnd in range(1 if ctx.tier == "quick" else 4):
+            repo = rng.choice(["a", "b/c"])
+            cfg = b"{}"
+            base = image_manifest(desc(MT_CFG, cfg), [], annotations={"ev": "base-%d" % rnd})
+            sd = {"mediaType": MT_OCI_M, "digest": dg("sha256", base), "size": len(base)}
+            art = image_manifest(desc(MT_EMPTY, cfg), [], subject=sd, artifact_type="application/vnd.example.sig", annotations={"ev": str(rnd)})
+            pre = [upload_post(repo, digest=dg("sha256", cfg), body=cfg), manifest_put(repo, "v1", base, ctype=MT_OCI_M)]
+            r1 = manifest_put(repo, dg("sha256", art), art, ctype=MT_OCI_M)
+            r2 = manifest_put(repo, "sig", art, ctype=MT_OCI_M)
+            for at in range(1, 20):
+                mids = [dict(kind="async", impl=dict(op="async", par=[[r2["impl"]]]), model="(skip)"), special("sleep", secs=0.08), upload_post(repo), special("sleep", secs=0.08)]
+                hk = dict(r1, kind="hooked", model="(skip)", impl=dict(r1["impl"], op="hooked", n=at, mid=[x["impl"] for x in mids]))
+                steps = [dict(x) for x in pre] + [hk, dict(kind="join", impl=dict(op="join", secs=5.0), model="(skip)"),
+                                                  manifest_get(repo, "sig"), manifest_get(repo, dg("sha256", art)), tag_list(repo), referrers(repo, dg("sha256", base), None)]
+                for st in steps:
+                    st["model"] = "(skip)"
+                cid = 995000 + len(cases)
+                cases.append(dict(id=cid, conf=mkconf(store=store, withsubj=False, uploadmax=1), steps=steps))
+                meta[cid] = (store, at, dg("sha256", art))
+    iouts = run_api(ctx, binp, cases, name="evict")
+    n = nbad = 0
+    for c in cases:
+        store, at, dart = meta[c["id"]]
+        io = iouts[c["id"]]["steps"]
+        hk = [r for st, r in zip(c["steps"], io) if st["kind"] == "hooked"][0]
+        acts = hk.get("names") or []
+        if at > len(acts):
+            continue
+        n += 1
+        jn = [r for st, r in zip(c["steps"], io) if st["kind"] == "join"][0]
+        second = ((jn.get("par") or [[]])[0] or [{}])[0]
+        if second.get("status") != 201:
+            continue
+        got_tag, got_dig, got_tags, got_refs = io[-4], io[-3], io[-2], io[-1]
+        listed = _ans(c["steps"][-1], got_refs)
+        if got_tag.get("status") != 200 or got_dig.get("status") != 200 or dart not in (listed[1] if len(listed) > 1 and isinstance(listed[1], tuple) else ()):
+            nbad += 1
+            ctx.violation("%s store: the push of tag sig was acknowledged (201) while another push of the same artifact, standing before its store action %d (%s), failed with %s (its session for the referrers response was evicted): "
+                          "afterwards GET sig -> %s, GET by digest -> %s, the subject's referrers %s" % (store, at, acts[at - 1], hk.get("status"), got_tag.get("status"), got_dig.get("status"), listed),
+                          dict(case=replayable(c), actions=acts, before_action=acts[at - 1]), "C11:acknowledged-tag-lost-to-failed-push")
     return n, nbad
 
 
@@ -732,6 +785,7 @@ def run(ctx):
         res["hooked"] = hooked_check(ctx)
         res["pullgc"] = pull_vs_collection_check(ctx)
         res["pairs"] = hooked_pairs_check(ctx)
+        res["evict"] = evicted_update_check(ctx)
         bodies = set()
         for c in cases:
             bodies |= set(c["contents"])
@@ -749,6 +803,7 @@ def run(ctx):
         ctx.coverage["referrers_mutex_schedules"], ctx.coverage["referrers_lag_observed"] = res.get("lag", (0, 0))
         ctx.coverage["paged_listings_across_a_delete"], ctx.coverage["paged_listings_incomplete"] = res.get("paged", (0, 0))
         ctx.coverage["children_pulled_during_index_updates"], ctx.coverage["children_reads_torn"] = res.get("children", (0, 0))
+        ctx.coverage["pushes_failed_by_eviction_next_to_a_tag_push"], ctx.coverage["acknowledged_tags_lost"] = res.get("evict", (0, 0))
         ctx.coverage["request_pairs_with_one_paused_at_each_store_action"], ctx.coverage["pairs_not_serializable"] = res.get("pairs", (0, 0))
         ctx.coverage["pulls_paused_during_tag_move_and_collection"], ctx.coverage["pulls_lost"] = res.get("pullgc", (0, 0))
         ctx.coverage["requests_paused_before_each_store_action"], ctx.coverage["intermediate_states_observed"], ctx.coverage["referrers_lag_states_observed"] = res.get("hooked", (0, 0, 0))
